@@ -153,7 +153,7 @@ def finding_key(key, engine, case, step):
 TIERS = {
     # (cfg, engines, simulate)
     "quick": [("MIRLink_mc.cfg", (0,), None)],
-    "thorough": [("MIRLink_mc.cfg", (0, 1), None), ("MIRLink_t.cfg", (0, 1), None), ("MIRLink_sim.cfg", (0, 1), (4000, 16))],
+    "thorough": [("MIRLink_mc.cfg", (0, 1), None), ("MIRLink_t.cfg", (0, 1), None), ("MIRLink_sim.cfg", (0, 1), (200, 16))],
 }
 
 
@@ -241,7 +241,7 @@ def run(tier, mutate=None):
                     "are compared with the model")
     ck.setc("trusted_base", ["TLC 1.8", "harness/c13_link.c", "MIR interpreter/generator executing the observer functions"])
     ck.assumptions += ["3 names, module shapes of MIRLink!AllShapes, bounds of the .cfg files",
-                       "deviations modelled: DevRedefAnyEntry, DevResolverRegisters, DevDupDeclMerged (see MIRLink.tla)"]
+                       "deviations modelled: DevRedefAnyEntry, DevResolverRegisters, DevDupDeclMerged, DevDanglingAccepted (see MIRLink.tla)"]
     return ck.finish()
 
 
